@@ -212,14 +212,14 @@ def plans_C05(g, tier):
     alpha = [g.call(0, F1, a) for a in range(n)] + [g.release(i) for i in range(n)]
     mask = F_KIND | F_HANDLER | F_REPCOUNT | F_REPCULPRIT | F_QEXP | F_QSEQ | F_CLOG
     if tier == 'quick':
-        plans.append(dict(name='seq3', mask=mask, du=0, dm=4, alphabet=alpha, prefixes=seq_configs(g, 3, BOUNDS_Q)))
+        plans.append(dict(name='seq3', mask=mask, du=0, dm=5, alphabet=alpha, prefixes=seq_configs(g, 3, BOUNDS_Q)))
         malpha = alpha + [g.op(OP_DELETE_WATCHED, obj=w) for w in range(2)]
-        plans.append(dict(name='seq3mon', mask=mask, du=0, dm=4, alphabet=malpha,
+        plans.append(dict(name='seq3mon', mask=mask, du=0, dm=5, alphabet=malpha,
                           prefixes=[p for p in seq_configs(g, 3, [(1, 1), (0, INF)], with_monitors=True, any_matchers=False) if any(o[0] == OP_MONITOR for o in p)]))
     else:
-        plans.append(dict(name='seq3', mask=mask, du=0, dm=6, alphabet=alpha, prefixes=seq_configs(g, 3, BOUNDS_T)))
+        plans.append(dict(name='seq3', mask=mask, du=0, dm=7, alphabet=alpha, prefixes=seq_configs(g, 3, BOUNDS_T)))
         malpha = alpha + [g.op(OP_DELETE_WATCHED, obj=w) for w in range(3)]
-        plans.append(dict(name='seq3mon', mask=mask, du=0, dm=5, alphabet=malpha,
+        plans.append(dict(name='seq3mon', mask=mask, du=0, dm=6, alphabet=malpha,
                           prefixes=[p for p in seq_configs(g, 3, BOUNDS_Q, with_monitors=True, any_matchers=False) if any(o[0] == OP_MONITOR for o in p)]))
     return plans
 
@@ -229,11 +229,11 @@ def plans_C06(g, tier):
     alpha = [g.call(0, F1, a) for a in range(n)] + [g.release(i) for i in range(n)] + [g.op(OP_DESTROY_SEQ, s1=q) for q in (0, 1)] + [g.op(OP_MOVE_SEQ, s1=0)]
     mask = F_QSEQ | F_REPCOUNT | F_REPCULPRIT | F_REPDETAIL | F_KIND
     if tier == 'quick':
-        return [dict(name='seq3teardown', mask=mask, du=0, dm=4, alphabet=alpha, prefixes=seq_configs(g, 3, [(1, 1), (0, INF), (2, 2)], any_matchers=False)),
-                dict(name='seq3mon_teardown', mask=mask, du=0, dm=4, alphabet=alpha + [g.op(OP_DELETE_WATCHED, obj=w) for w in range(2)],
+        return [dict(name='seq3teardown', mask=mask, du=0, dm=5, alphabet=alpha, prefixes=seq_configs(g, 3, [(1, 1), (0, INF), (2, 2)], any_matchers=False)),
+                dict(name='seq3mon_teardown', mask=mask, du=0, dm=5, alphabet=alpha + [g.op(OP_DELETE_WATCHED, obj=w) for w in range(2)],
                      prefixes=[p for p in seq_configs(g, 3, [(1, 1)], with_monitors=True, any_matchers=False) if any(o[0] == OP_MONITOR for o in p)])]
-    return [dict(name='seq3teardown', mask=mask, du=0, dm=6, alphabet=alpha, prefixes=seq_configs(g, 3, BOUNDS_T, any_matchers=False)),
-            dict(name='seq3mon_teardown', mask=mask, du=0, dm=5, alphabet=alpha + [g.op(OP_DELETE_WATCHED, obj=w) for w in range(3)],
+    return [dict(name='seq3teardown', mask=mask, du=0, dm=7, alphabet=alpha, prefixes=seq_configs(g, 3, BOUNDS_T, any_matchers=False)),
+            dict(name='seq3mon_teardown', mask=mask, du=0, dm=6, alphabet=alpha + [g.op(OP_DELETE_WATCHED, obj=w) for w in range(3)],
                  prefixes=[p for p in seq_configs(g, 3, [(1, 1), (0, INF)], with_monitors=True, any_matchers=False) if any(o[0] == OP_MONITOR for o in p)])]
 
 
@@ -272,9 +272,9 @@ M_C01 = F_KIND | F_REPCOUNT | F_CLOG | F_QEXP
 
 def plans_C01(g, tier):
     if tier == 'quick':
-        return [dict(name='hist2', mask=M_C01, du=2, dm=5, alphabet=c01_alphabet(g, (0, 1)))]
-    return [dict(name='hist2', mask=M_C01, du=3, dm=7, alphabet=c01_alphabet(g, (0, 1))),
-            dict(name='hist3', mask=M_C01, du=2, dm=5, alphabet=c01_alphabet(g, (0, 1, 2)))]
+        return [dict(name='hist2', mask=M_C01, du=2, dm=6, alphabet=c01_alphabet(g, (0, 1)))]
+    return [dict(name='hist2', mask=M_C01, du=3, dm=8, alphabet=c01_alphabet(g, (0, 1))),
+            dict(name='hist3', mask=M_C01, du=2, dm=6, alphabet=c01_alphabet(g, (0, 1, 2)))]
 
 
 # ---------------------------------------------------------------- C02
@@ -318,10 +318,10 @@ def plans_C02(g, tier):
                 iso_pre.append([g.create(0, g.shape(fn=F1, mk1=mk, nse=0 if b == (0, 0) else 1), obj=0, k1=1, lo=b[0], hi=b[1])] + others)
     iso_alpha = calls + [g.call(1, F1, 1), g.call(0, G1, 1), g.call(0, F2, 1, 1), g.call(1, G1, 1), g.call(1, F2, 1, 1)] + [g.release(i) for i in range(4)]
     if tier == 'quick':
-        return [dict(name='sel3', mask=M_C02, du=0, dm=3, alphabet=calls + rel, prefixes=c02_configs(g, ('ANY', 'EQ', 'LT'), [(0, INF), (1, 2)])),
-                dict(name='isolation', mask=M_C02, du=0, dm=4, alphabet=iso_alpha, prefixes=iso_pre)]
-    return [dict(name='sel3', mask=M_C02, du=0, dm=5, alphabet=calls + rel, prefixes=c02_configs(g, ('ANY', 'EQ', 'LT'), [(0, INF), (1, 2), (1, 1)])),
-            dict(name='isolation', mask=M_C02, du=0, dm=6, alphabet=iso_alpha, prefixes=iso_pre)]
+        return [dict(name='sel3', mask=M_C02, du=0, dm=4, alphabet=calls + rel, prefixes=c02_configs(g, ('ANY', 'EQ', 'LT'), [(0, INF), (1, 2)])),
+                dict(name='isolation', mask=M_C02, du=0, dm=5, alphabet=iso_alpha, prefixes=iso_pre)]
+    return [dict(name='sel3', mask=M_C02, du=0, dm=6, alphabet=calls + rel, prefixes=c02_configs(g, ('ANY', 'EQ', 'LT'), [(0, INF), (1, 2), (1, 1)])),
+            dict(name='isolation', mask=M_C02, du=0, dm=7, alphabet=iso_alpha, prefixes=iso_pre)]
 
 
 # ---------------------------------------------------------------- C03
@@ -367,7 +367,7 @@ def plans_C03(g, tier):
            g.create(3, g.shape(fn=F1, mk1='ANY', tform='RT', seqar=2, clauses='QTA'), obj=0, lo=1, hi=0, s1=0, s2=1)]
     seqd = g.create(2, g.shape(fn=G1, mk1='ANY', tform='RT', seqar=1), obj=0, lo=1, hi=1, s1=0)
     alpha = [g.call(0, F1, 1), g.call(0, F1, 2), g.release(0), g.release(1)] + bad + [seqd, g.call(0, G1, 1), g.op(OP_DESTROY_SEQ, s1=0), g.op(OP_DESTROY_MOCK, obj=0)]
-    return [dict(name='bounds', mask=M_C03, du=0, dm=6 if tier == 'quick' else 8, alphabet=alpha, prefixes=pre)]
+    return [dict(name='bounds', mask=M_C03, du=0, dm=7 if tier == 'quick' else 10, alphabet=alpha, prefixes=pre)]
 
 
 # ---------------------------------------------------------------- C04
@@ -391,9 +391,9 @@ def c04_alphabet(g, slots):
 
 def plans_C04(g, tier):
     if tier == 'quick':
-        return [dict(name='eol2', mask=M_C04, du=2, dm=5, alphabet=c04_alphabet(g, (0, 1)))]
-    return [dict(name='eol2', mask=M_C04, du=3, dm=8, alphabet=c04_alphabet(g, (0, 1))),
-            dict(name='eol3', mask=M_C04, du=2, dm=5, alphabet=c04_alphabet(g, (0, 1, 2)))]
+        return [dict(name='eol2', mask=M_C04, du=2, dm=6, alphabet=c04_alphabet(g, (0, 1)))]
+    return [dict(name='eol2', mask=M_C04, du=3, dm=9, alphabet=c04_alphabet(g, (0, 1))),
+            dict(name='eol3', mask=M_C04, du=2, dm=6, alphabet=c04_alphabet(g, (0, 1, 2)))]
 
 
 # ---------------------------------------------------------------- C07
@@ -496,9 +496,10 @@ def c13_alphabet(g, slots, nw):
 
 def plans_C13(g, tier):
     if tier == 'quick':
-        return [dict(name='watch2', mask=M_C13, du=3, dm=6, alphabet=c13_alphabet(g, (0, 1), 2))]
-    return [dict(name='watch3', mask=M_C13, du=4, dm=8, alphabet=c13_alphabet(g, (0, 1), 3)),
-            dict(name='watch3mon3', mask=M_C13, du=3, dm=6, alphabet=c13_alphabet(g, (0, 1, 2), 3))]
+        return [dict(name='watch2', mask=M_C13, du=3, dm=7, alphabet=c13_alphabet(g, (0, 1), 2)),
+                dict(name='watch3mon3', mask=M_C13, du=3, dm=5, alphabet=c13_alphabet(g, (0, 1, 2), 3))]
+    return [dict(name='watch3', mask=M_C13, du=4, dm=9, alphabet=c13_alphabet(g, (0, 1), 3)),
+            dict(name='watch3mon3', mask=M_C13, du=3, dm=8, alphabet=c13_alphabet(g, (0, 1, 2), 3))]
 
 
 # ---------------------------------------------------------------- C14
@@ -548,8 +549,8 @@ def plans_C16(g, tier):
     A += [g.call(0, F1, a) for a in (0, 1, 2)] + [g.call(0, G1, 1)]
     A += [g.op(OP_SET_REPORTER, k1=1, k2=1), g.op(OP_SET_REPORTER, k1=2, k2=0), g.op(OP_SET_REPORTER, k1=0, k2=1)]
     if tier == 'quick':
-        return [dict(name='ok3', mask=M_C16, du=2, dm=5, alphabet=A)]
-    return [dict(name='ok3', mask=M_C16, du=3, dm=7, alphabet=A)]
+        return [dict(name='ok3', mask=M_C16, du=2, dm=6, alphabet=A)]
+    return [dict(name='ok3', mask=M_C16, du=3, dm=8, alphabet=A)]
 
 
 # ---------------------------------------------------------------- C17
@@ -570,7 +571,7 @@ def plans_C17(g, tier):
             g.create(2, g.shape(fn=G1, mk1='ANY', tform='RT', seqar=1, act='THROW_STD'), obj=0, lo=1, hi=1, s1=0)]]
     A = [g.op(OP_PUSH_TRACER, k1=0), g.op(OP_PUSH_TRACER, k1=1), g.op(OP_POP_TRACER)]
     A += [g.call(0, F1, a) for a in (0, 1, 2)] + [g.call(0, G1, 1), g.call(0, V1, 1), g.call(0, F2, 1, 2), g.call(0, R1, 1), g.release(3)]
-    return [dict(name='trace', mask=M_C17, du=3 if tier == 'quick' else 4, dm=6 if tier == 'quick' else 8, alphabet=A, prefixes=pre)]
+    return [dict(name='trace', mask=M_C17, du=3 if tier == 'quick' else 4, dm=7 if tier == 'quick' else 10, alphabet=A, prefixes=pre)]
 
 
 # ---------------------------------------------------------------- C15: the report mask applied to the violation-producing histories
